@@ -22,7 +22,7 @@ def main():
         rows.append('| %s | %s | %s | %s | %s |' % (f['id'], f['property'], f['status'], f.get('commit', '-'), f['what'].replace('|', '/')))
     s = block('findings', '\n'.join(rows), s)
     rows = ['| seeded id | property | what was changed | needs to manifest | quick check |', '|---|---|---|---|---|']
-    for d in sorted(glob.glob(os.path.join(V, 'seeded', '*'))):
+    for d in sorted(x for x in glob.glob(os.path.join(V, 'seeded', '*')) if os.path.isdir(x)):
         m = json.load(open(os.path.join(d, 'meta.json')))
         res = 'caught' if m.get('caught_by_quick_check') else 'MISSED'
         if m.get('history'):
